@@ -379,13 +379,6 @@ Lemma get_type_build_nodup {D} (items : list (str * D)) k :
   NoDup (keys items) -> get_type (build items) k = hm_get items k.
 Proof. intros Hnd. unfold get_type. now destruct (build_nodup items Hnd) as [-> _]. Qed.
 
-(** first insertion wins in general: the names are the first occurrences, in order *)
-Fixpoint dedup (seen l : list str) : list str :=
-  match l with
-  | [] => []
-  | x :: r => if existsb (str_eqb x) seen then dedup seen r else x :: dedup (seen ++ [x]) r
-  end.
-
 Lemma existsb_str_in x l : existsb (str_eqb x) l = true <-> In x l.
 Proof.
   rewrite existsb_exists. split.
@@ -423,6 +416,11 @@ Proof.
   destruct (wf_build items) as [Hn _]. unfold keys in Hn. rewrite <- Hn.
   unfold build. now rewrite names_extend by apply wf_empty.
 Qed.
+
+Lemma iter_types_insertion_order {D} (items : list (str * D)) :
+  map fst (iter_types (build items)) = dedup [] (keys items)
+  /\ (NoDup (keys items) -> iter_types (build items) = items).
+Proof. split; [apply iter_types_names_build|apply iter_types_build_nodup]. Qed.
 
 (** ** map_str *)
 
@@ -763,94 +761,7 @@ Proof.
 Qed.
 
 (* ------------------------------------------------------------------------------------------- *)
-(** * §F every scanned iteration site is accounted for *)
-
-Import Gen.C17_sites_gen.
-Local Open Scope string_scope.
-
-Inductive cover :=
-| NotHash (why : string)                        (* over-report of the scanner: the binding is a Vec of AST nodes *)
-| ByLemma (name : string) (P : Prop) (pf : P)   (* the order-insensitivity lemma covering the site *)
-| Argued (why : string).                        (* outside the models: argument in words, see design/C17.md *)
-
-Definition ast_directives : string := "the receiver is the `directives: Vec<Directive>` field of an AST node (same name as DefinitionMap.directives)".
-
-Definition known_sites : list (site * cover) := [
-  (mk_site (s "crates/checker/src/type_system_checker/check_directive_recursion.rs") (s "check_directive_recursion") (s "directives") (s "iter") 1, NotHash ast_directives);
-  (mk_site (s "crates/checker/src/type_system_checker/check_directive_recursion.rs") (s "directives_in_type") (s "directives") (s "iter") 10, NotHash ast_directives);
-  (mk_site (s "crates/graphql-loader/src/tasks.rs") (s "iter_loaded_files") (s "loaded_files") (s "iter") 1,
-     Argued "only caller is loader.rs get_required_files: the answer is the *set* of not-yet-loaded import targets (membership tests `contains_file`/`required_files.contains` are order-free); its order follows the hash order and is a set by contract (the JS side loads every listed file); not part of `generate` output");
-  (mk_site (s "crates/plugin/src/graphql_scalars_plugin/mod.rs") (s "load_schema_extensions") (s "type_extensions") (s "for") 1,
-     ByLemma "reinsert_oracle_irrelevant" _ (@reinsert_oracle_irrelevant));
-  (mk_site (s "crates/plugin/src/graphql_scalars_plugin/mod.rs") (s "schema_addition") (s "scalar_extensions") (s "iter") 1,
-     Argued "collected into a Vec and sorted by the (unique) map key before use: `scalar_extensions.sort_by_key(|(type_name, _)| *type_name)`; same argument as sort_by_order_irrelevant with string keys; plugin path needs a JS schema file and is not reachable offline");
-  (mk_site (s "crates/plugin/src/model_plugin/mod.rs") (s "check_schema") (s "directives") (s "iter") 3, NotHash ast_directives);
-  (mk_site (s "crates/plugin/src/model_plugin/mod.rs") (s "transform_document_for_resolvers") (s "directives") (s "iter") 2, NotHash ast_directives);
-  (mk_site (s "crates/plugin/src/model_plugin/mod.rs") (s "transform_document_for_runtime_server") (s "directives") (s "iter") 2, NotHash ast_directives);
-  (mk_site (s "crates/plugin/src/model_plugin/mod.rs") (s "transform_resolver_output_types") (s "directives") (s "iter") 2, NotHash ast_directives);
-  (mk_site (s "crates/printer/src/operation_type_printer/type_printer.rs") (s "check_skip_directive") (s "directives") (s "for") 1, NotHash ast_directives);
-  (mk_site (s "crates/printer/src/operation_type_printer/type_printer.rs") (s "get_boolean_variables") (s "directives") (s "for") 1, NotHash ast_directives);
-  (mk_site (s "crates/printer/src/schema_type_printer/context.rs") (s "get_bag_of_identifiers") (s "scalar_types") (s "values") 1,
-     ByLemma "bag_mem_oracle_irrelevant" _ bag_mem_oracle_irrelevant);
-  (mk_site (s "crates/printer/src/schema_type_printer/context.rs") (s "get_scalar_types") (s "directives") (s "iter") 1, NotHash ast_directives);
-  (mk_site (s "crates/printer/src/schema_type_printer/printer.rs") (s "from_config") (s "scalar_types") (s "iter") 1,
-     ByLemma "from_config_oracle_irrelevant" _ from_config_oracle_irrelevant);
-  (mk_site (s "crates/type-system/src/schema.rs") (s "map_str") (s "directive_definitions") (s "iter") 1,
-     ByLemma "map_str_oracle_irrelevant" _ (@map_str_oracle_irrelevant));
-  (mk_site (s "crates/type-system/src/schema.rs") (s "map_str") (s "type_definitions") (s "iter") 1,
-     ByLemma "map_str_oracle_irrelevant" _ (@map_str_oracle_irrelevant))
-].
-
-Definition site_known (x : site) : bool := existsb (fun kc => site_eqb x (fst kc)) known_sites.
-Definition site_scanned (x : site) : bool := existsb (site_eqb x) scanned_sites.
-
-(** T3 obligation: a new (or duplicated, or moved) hash-iteration site in /repo makes this fail *)
-Lemma all_sites_accounted : forallb site_known scanned_sites = true.
-Proof. vm_compute. reflexivity. Qed.
-
-(** and the table carries no stale entries *)
-Lemma known_sites_all_scanned : forallb (fun kc => site_scanned (fst kc)) known_sites = true.
-Proof. vm_compute. reflexivity. Qed.
-
-(** files that mention a hash container at all; how each uses it.  "key" = get/insert/contains/remove only. *)
-Definition known_hash_files : list (str * string) := [
-  (s "crates/async-runtime/src/ticket.rs", "string_tickets: key");
-  (s "crates/checker/src/operation_checker/count_selection_set_fields.rs", "FragmentMap: key");
-  (s "crates/checker/src/operation_checker/fragment_map.rs", "FragmentMap built by collect from a Vec: key");
-  (s "crates/checker/src/operation_checker/mod.rs", "FragmentMap: key");
-  (s "crates/checker/src/type_system_checker/check_directive_recursion.rs", "seen_directives: key; DefinitionMap: key");
-  (s "crates/cli/src/check.rs", "file_by_path built by collect from a Vec: key");
-  (s "crates/cli/src/schema_loader.rs", "type_extensions: deserialised, handed to plugins (site load_schema_extensions)");
-  (s "crates/config-file/src/config.rs", "scalar_types: deserialised, iterated at site from_config");
-  (s "crates/graphql-loader/src/tasks.rs", "tasks: key; loaded_files: key + site iter_loaded_files");
-  (s "crates/plugin/src/graphql_scalars_plugin/mod.rs", "sites load_schema_extensions, schema_addition");
-  (s "crates/plugin/src/model_plugin/mod.rs", "base (resolver output types): key");
-  (s "crates/plugin/src/plugin/mod.rs", "passes maps through");
-  (s "crates/plugin/src/plugin_v1/mod.rs", "trait signatures");
-  (s "crates/printer/src/operation_base_printer/visitor.rs", "fragments: key");
-  (s "crates/printer/src/operation_js_printer/printers.rs", "fragments: key");
-  (s "crates/printer/src/operation_type_printer/deep_merge.rs", "seen_fields: key");
-  (s "crates/printer/src/operation_type_printer/type_printer.rs", "fragment_definitions: key");
-  (s "crates/printer/src/operation_type_printer/visitor.rs", "fragment_definitions built by collect from a Vec: key");
-  (s "crates/printer/src/resolver_type_printer/plugin.rs", "trait signature");
-  (s "crates/printer/src/resolver_type_printer/printer.rs", "ts_types built by collect from a Vec: key");
-  (s "crates/printer/src/schema.rs", "builtin scalar table built by collect from a Vec");
-  (s "crates/printer/src/schema_type_printer/context.rs", "scalar_types: key + site get_bag_of_identifiers; local_type_names: key");
-  (s "crates/printer/src/schema_type_printer/printer.rs", "scalar_types: site from_config");
-  (s "crates/semantics/src/definition_map.rs", "types, directives: key");
-  (s "crates/semantics/src/operation_import_resolver/mod.rs", "visited: key");
-  (s "crates/type-system/src/builder.rs", "type_definitions, directive_definitions: key (entry); order kept in type_names / directive_names");
-  (s "crates/type-system/src/schema.rs", "key; sites map_str; iter_types / iter_directives go through the name vectors")
-].
-
-Lemma all_hash_files_accounted :
-  forallb (fun f => existsb (fun kf => str_eqb f (fst kf)) known_hash_files) hash_mention_files = true.
-Proof. vm_compute. reflexivity. Qed.
-
-(* ------------------------------------------------------------------------------------------- *)
 (** * Examples: the guards of the theorems are satisfiable by non-trivial inputs *)
-
-Local Close Scope string_scope.
 
 Ltac nodup_strs := repeat constructor; intros Hc; cbv in Hc; intuition discriminate.
 
@@ -1494,3 +1405,142 @@ Example ex_skeleton_permutation_nontrivial :
             /\ print_skeleton o_id (from_config o_id ex_cfg) (rev ex_doc) = Ok l'
             /\ l <> l' /\ List.length l = 17%nat.
 Proof. eexists. eexists. split; [vm_compute; reflexivity|]. split; [vm_compute; reflexivity|]. split; [discriminate|reflexivity]. Qed.
+
+(* ------------------------------------------------------------------------------------------- *)
+(** * §I what [holds] checks on the implementation's outputs, proved of the model *)
+
+(** resolver: no extension is left in a resolved document *)
+Lemma finish_kinds_no_ext ks xs out : finish_kinds ks xs = Ok out -> Forall (fun d => d_ext d = false) (idefs out).
+Proof.
+  revert out. induction ks as [|k r IH]; intros out; cbn [finish_kinds].
+  - intros H; inversion H; subst. constructor.
+  - destruct (into_original_and_extensions (elem_name k) (xs k)) as [l|e]; [|discriminate].
+    destruct (finish_kinds r xs) as [t|e]; [|discriminate]. intros H; inversion H; subst.
+    unfold idefs. rewrite flat_map_app. apply Forall_app. split; [|now apply IH].
+    clear. induction l as [|[o ex] l IH]; [constructor|]. cbn [map flat_map app]. now constructor.
+Qed.
+
+Lemma scan_items_dirs its : forall xs dirs xs' dirs',
+  scan_items its xs dirs = Ok (xs', dirs') -> idefs dirs = [] -> idefs dirs' = [].
+Proof.
+  induction its as [|[d|n p] r IH]; intros xs dirs xs' dirs'; cbn [scan_items].
+  - intros H; inversion H; subst. auto.
+  - destruct (d_ext d); [apply IH|].
+    destruct (set_original (elem_name (d_kind d)) (xs (d_kind d)) d); [apply IH|discriminate].
+  - intros H Hd. apply (IH _ _ _ _ H). unfold idefs in *. rewrite flat_map_app, Hd. reflexivity.
+Qed.
+
+Lemma resolve_no_extension_left its out :
+  resolve_schema_extensions its = Ok out -> Forall (fun d => d_ext d = false) (idefs out).
+Proof.
+  unfold resolve_schema_extensions.
+  destruct (scan_items its (fun _ => []) []) as [[xs dirs]|e] eqn:Es; [|discriminate].
+  destruct (finish_kinds all_kinds xs) as [t|e] eqn:Ef; [|discriminate].
+  intros H; inversion H; subst. unfold idefs. rewrite flat_map_app. fold (idefs dirs). fold (idefs t).
+  rewrite (scan_items_dirs its _ _ _ _ Es eq_refl). cbn [app]. now apply (finish_kinds_no_ext all_kinds xs).
+Qed.
+
+(** skeleton: every declaration carries the local name the context assigns to its schema name, the
+    representatives are exactly the type definitions in document order, and a local name is the schema name or
+    its [__tmp_] form *)
+Section SkeletonShape.
+  Variables (pi : oracle) (o : hmap scfg) (doc : list item).
+  Definition decl_ok (sec : N) (d : decl) : Prop :=
+    dc_section d = sec /\ hm_get (ctx_local_names pi o doc) (dc_schema d) = Some (dc_local d).
+
+  Lemma with_local_ok sec d body a :
+    with_local pi o doc d (fun local => [mk_decl sec local (d_name d) body]) = Ok a -> Forall (decl_ok sec) a.
+  Proof.
+    unfold with_local. destruct (hm_get (ctx_local_names pi o doc) (d_name d)) as [l|] eqn:E; [|discriminate].
+    intros H; inversion H; subst. constructor; [|constructor]. split; [reflexivity|exact E].
+  Qed.
+
+  Lemma with_local_ok_fun sec d (body : str -> body) a :
+    with_local pi o doc d (fun local => [mk_decl sec local (d_name d) (body local)]) = Ok a -> Forall (decl_ok sec) a.
+  Proof.
+    unfold with_local. destruct (hm_get (ctx_local_names pi o doc) (d_name d)) as [l|] eqn:E; [|discriminate].
+    intros H; inversion H; subst. constructor; [|constructor]. split; [reflexivity|exact E].
+  Qed.
+
+  Lemma print_type_decl_ok sec t d a : print_type_decl pi o doc sec t d = Ok a -> Forall (decl_ok sec) a.
+  Proof.
+    unfold print_type_decl. destruct (d_kind d).
+    - intros H; inversion H; constructor.
+    - destruct (hm_get (ctx_scalar_types o doc) (d_name d)); [apply with_local_ok|discriminate].
+    - destruct (is_input t); [intros H; inversion H; constructor|apply with_local_ok].
+    - destruct (is_input t); [intros H; inversion H; constructor|apply with_local_ok].
+    - destruct (is_input t); [intros H; inversion H; constructor|apply with_local_ok].
+    - apply with_local_ok.
+    - destruct (is_input t); [apply with_local_ok|intros H; inversion H; constructor].
+  Qed.
+
+  Lemma print_defs_ok sec t ds : forall a, print_defs pi o doc sec t ds = Ok a -> Forall (decl_ok sec) a.
+  Proof.
+    induction ds as [|d r IH]; intros a; cbn [print_defs]; [intros H; inversion H; constructor|].
+    destruct (print_type_decl pi o doc sec t d) as [l|e] eqn:E; [|discriminate].
+    destruct (print_defs pi o doc sec t r) as [l'|e]; [|discriminate]. intros H; inversion H; subst.
+    apply Forall_app. split; [now apply (print_type_decl_ok sec t d)|now apply IH].
+  Qed.
+
+  Lemma print_representatives_shape ds : forall a,
+    print_representatives pi o doc ds = Ok a -> Forall (decl_ok 4) a /\ map dc_schema a = map d_name ds.
+  Proof.
+    induction ds as [|d r IH]; intros a; cbn [print_representatives]; [intros H; inversion H; split; [constructor|reflexivity]|].
+    unfold with_local at 1. destruct (hm_get (ctx_local_names pi o doc) (d_name d)) as [l|] eqn:E; [|discriminate].
+    destruct (print_representatives pi o doc r) as [l'|e]; [|discriminate]. intros H; inversion H; subst.
+    destruct (IH l' eq_refl) as [F M]. split.
+    - cbn [app]. constructor; [split; [reflexivity|exact E]|exact F].
+    - cbn [app map dc_schema]. now rewrite M.
+  Qed.
+
+  Lemma print_targets_shape ts : forall a,
+    Forall (fun st => fst st <> 4%N) ts ->
+    print_targets pi o doc ts = Ok a ->
+    Forall (fun d => decl_ok (dc_section d) d) a
+    /\ map dc_schema (filter (fun d => N.eqb (dc_section d) 4) a) = map d_name (type_defs doc).
+  Proof.
+    induction ts as [|[sec t] r IH]; intros a Hts; cbn [print_targets].
+    - intros H. destruct (print_representatives_shape _ _ H) as [F M]. split.
+      + eapply Forall_impl; [|exact F]. intros d [E1 E2]. split; [reflexivity|exact E2].
+      + rewrite <- M. f_equal. clear - F. induction F as [|d l [E _] _ IH]; [reflexivity|].
+        cbn [filter]. rewrite E. cbn. now rewrite IH.
+    - inversion Hts as [|? ? Hsec Hr]; subst. cbn [fst] in Hsec.
+      destruct (print_defs pi o doc sec t (type_defs doc)) as [l|e] eqn:E; [|discriminate].
+      destruct (print_targets pi o doc r) as [l'|e]; [|discriminate]. intros H; inversion H; subst.
+      destruct (IH l' Hr eq_refl) as [F M]. pose proof (print_defs_ok sec t _ _ E) as Fl. split.
+      + apply Forall_app. split; [|exact F]. eapply Forall_impl; [|exact Fl]. intros d [E1 E2]. split; [reflexivity|exact E2].
+      + rewrite filter_app. assert (Z : filter (fun d => N.eqb (dc_section d) 4) l = []).
+        { clear - Fl Hsec. induction Fl as [|d l [E1 _] _ IH]; [reflexivity|]. cbn [filter]. rewrite E1.
+          destruct (N.eqb_spec sec 4); [contradiction|exact IH]. }
+        rewrite Z. exact M.
+  Qed.
+
+  Lemma print_skeleton_shape a :
+    print_skeleton pi o doc = Ok a ->
+    Forall (fun d => hm_get (ctx_local_names pi o doc) (dc_schema d) = Some (dc_local d)) a
+    /\ map dc_schema (filter (fun d => N.eqb (dc_section d) 4) a) = map d_name (type_defs doc)
+    /\ Forall (fun d => dc_local d = dc_schema d \/ dc_local d = tmp_prefix ++ dc_schema d) a.
+  Proof.
+    intros H. unfold print_skeleton in H.
+    assert (Hts : Forall (fun st : N * target => fst st <> 4%N) targets) by (repeat constructor; discriminate).
+    destruct (print_targets_shape targets a Hts H) as [F M].
+    assert (F' : Forall (fun d => hm_get (ctx_local_names pi o doc) (dc_schema d) = Some (dc_local d)) a)
+      by (eapply Forall_impl; [|exact F]; intros d [_ E]; exact E).
+    split; [exact F'|]. split; [exact M|].
+    eapply Forall_impl; [|exact F']. intros d E. cbv beta in E.
+    apply hm_get_some_in in E. unfold ctx_local_names, make_local_type_names in E. cbv zeta in E.
+    (* an entry of a collected list is one of the inserted pairs *)
+    assert (G' : forall (k v : str) (l0 : list (str * str)) acc, In (k, v) (hm_extend acc l0) -> In (k, v) acc \/ In (k, v) l0).
+    { intros k v. induction l0 as [|[k0 v0] r IH]; intros acc Hin; [now left|]. unfold hm_extend in *. cbn [fold_left fst snd] in Hin.
+      destruct (IH _ Hin) as [Hacc|Hr]; [|right; now right].
+      clear - Hacc. induction acc as [|[k1 v1] acc IHa]; cbn [hm_insert] in Hacc.
+      - destruct Hacc as [E|[]]. right. left. exact E.
+      - destruct (str_eqb k1 k0) eqn:Ek.
+        + destruct Hacc as [E|Hacc]; [|left; now right]. inversion E; subst. apply str_eqb_eq in Ek. subst. right. now left.
+        + destruct Hacc as [E|Hacc]; [left; now left|]. destruct (IHa Hacc) as [H|H]; [left; now right|right; exact H]. }
+    assert (G : forall (l : list (str * str)) k v, In (k, v) (hm_collect l) -> In (k, v) l).
+    { intros l k v Hin. destruct (G' k v l [] Hin) as [[]|H1]. exact H1. }
+    apply G in E. apply in_map_iff in E. destruct E as (d0 & E0 & _). inversion E0; subst.
+    destruct (bag_mem _ _); [now right|now left].
+  Qed.
+End SkeletonShape.
